@@ -106,7 +106,7 @@ type c18Env struct {
 }
 
 func c18NewNode(dir string, port int) (*cluster.ClusterNode, error) {
-	return cluster.NewNode(cluster.ClusterNodeConfig{
+	return startNode(cluster.ClusterNodeConfig{
 		RootDir: dir, RpcHost: "localhost", RpcPort: port, RpcTimeout: 5, RpcRetries: 1,
 		Servers:            []string{fmt.Sprintf("localhost:%d", port)},
 		ShardManager:       cluster.ShardManagerConfig{RootDir: dir, ShardTimeout: 600, MaxCacheSize: -1},
